@@ -9,7 +9,7 @@ from .. import registry as R
 from ..common import UnitResult, case_rng, chunks, show, strict
 from ..single import SUB_AT, make_input
 from ..vlab import Lab, gen_timeline, show_timeline
-from ._c18_trace import INF, Trace, check_top_term, check_windows, deliveries, terminal_of
+from ._c18_trace import INF, Trace, check_subscribed, check_top_term, check_windows, deliveries, terminal_of
 
 ID = "C19"
 LEVEL = "exploration"
@@ -194,6 +194,8 @@ def run_groups(case: dict, r: Any, res: UnitResult, seed: int, idx: int) -> None
         gk = getattr(x[1], "key", "<no key attribute>")
         if strict(gk) != strict(s["key"]):
             probs.append(("group_key", "group %d has key %r, the element that created it has key %r" % (j, gk, s["key"])))
+    if op == "group_by_until":
+        probs.extend(check_subscribed(lab, tr, [("d%d" % j, s["open_cause"]) for j, s in enumerate(specs)], "duration_not_subscribed"))
     if op == "group_by_until" and model["ignore_after"] == INF:
         want = [s["key"] for s in specs]
         if [strict(k) for k in dur_args[:len(want)]] != [strict(k) for k in want] or len(dur_args) > len(want):
